@@ -39,7 +39,7 @@ func (g *Gen) emit(line string) string {
 	ans := g.emit1(line)
 	// after every mutating op the full observation is compared with the model
 	switch strings.Fields(line)[0] {
-	case "dotx", "play", "playminer", "walk", "reopen", "race2", "balrace":
+	case "dotx", "play", "playminer", "walk", "reopen", "race2", "balrace", "selrace":
 		g.emit1("obs")
 	case "confirm", "truncate":
 		g.emit1("ledger")
@@ -361,6 +361,24 @@ func (g *Gen) scenario(p *Profile) {
 			}
 			if a != b {
 				g.emit(fmt.Sprintf("race2 %d %d", a, b))
+			}
+		case "selrace":
+			// two selectors with locking on an address that holds something
+			s, h := e.specNow(), g.ledgerHeight()
+			us := g.users()
+			from := us[g.r.Intn(len(us))]
+			for _, u := range us {
+				if len(spendable(s, from, h, false)) > 0 {
+					break
+				}
+				from = u
+			}
+			if sp := spendable(s, from, h, false); len(sp) > 0 {
+				amt := s.U[sp[g.r.Intn(len(sp))]].Amt.Int64()
+				if amt > 1 && g.r.Bool() {
+					amt = 1 + int64(g.r.Intn(int(amt)))
+				}
+				g.emit(fmt.Sprintf("selrace %s %d", from, amt))
 			}
 		case "balrace":
 			if line, ok := g.genXfer(e.specNow(), g.ledgerHeight(), ""); ok {
